@@ -98,7 +98,16 @@ def main(argv):
         if a.replay:
             with open(a.replay) as f:
                 doc = json.load(f)
-            mod.replay(chk, doc["scenario"])
+            try:
+                mod.replay(chk, doc["scenario"])
+            except MachineryError as ex:
+                if "re-run" not in str(ex):
+                    raise
+                # scenario sets are regenerated deterministically by TLC: run the check again (same tier as recorded is the caller's business)
+                # and keep only the mismatches with the fingerprint of the replayed violation
+                mod.run(chk)
+                chk.mismatches = [m for m in chk.mismatches if m["fingerprint"] == doc.get("fingerprint")]
+                chk.notes["replayed_fingerprint"] = doc.get("fingerprint")
         else:
             mod.run(chk)
         return chk.finish()
